@@ -626,10 +626,10 @@ func containerCase(c *mon.Case) {
 func runC16(w *mon.Worker) {
 	mon.SetMaxSleep(120 * time.Microsecond)
 	mon.SetProb(0.3, verifhook.OnceLock, verifhook.PromiseSetMid, verifhook.MemoMid)
-	for i := 0; i < w.Share(w.Scale(12000, 1500000)); i++ {
+	for i := 0; i < w.Share(w.Scale(12000, 4500000)); i++ {
 		w.Case("once", nil, onceCase)
 	}
-	for i := 0; i < w.Share(w.Scale(6000, 600000)); i++ {
+	for i := 0; i < w.Share(w.Scale(6000, 1800000)); i++ {
 		w.Case("memo", nil, memoCase)
 	}
 	mon.ClearProb()
